@@ -1,5 +1,6 @@
 import NgVerif.Proofs.MiniShard
 import NgVerif.Proofs.Shard
+import NgVerif.Proofs.ShardImpl
 /-
   C05 — Sharded storage returns what was stored, whatever the order of writes.
   Statements are about one minishard (the unit of reordering); a shard file is a function of its
@@ -71,5 +72,43 @@ theorem closed_reads_back (m s p masked : Nat) (ops : List (Nat × Payload)) (R 
   · intro id hid
     rw [hsame]
     exact readBack_canon_absent _ _ mono _ id hid
+
+/-- FILE LEVEL, the package's own reader: after any history of stores into the minishards of a
+    shard and `close`, `fetch_chunk` on the written file returns, for every stored identifier, the
+    stored bytes — for every bit triple, ANY set of present minishards (in particular with unused
+    lower-numbered minishards, where the specification reader fails: finding F8), any order of
+    stores. Hypotheses: the closed minishards are the ones the writer produced (`hmini`), distinct
+    minishards have distinct numbers, and the first identifier of each lies in it. -/
+theorem stored_chunk_read_by_own_reader
+    (m s p masked : Nat) (minis : List Mini) (wf : Wf minis) (hslots : minis.length ≤ 2 ^ m)
+    (hfirst : ∀ mn ∈ minis, ∃ d sz t, mn.rows = (d, sz) :: t ∧ Routing.minishardKey m p d = mn.key)
+    (hkeys : ∀ i j (hi : i < minis.length) (hj : j < minis.length), minis[i].key = minis[j].key → i = j)
+    (k : Nat) (hk : k < minis.length)
+    (ops : List (Nat × Payload)) (R fuel : Nat)
+    (hok : Ok (nextId m s p masked) MS.empty ops)
+    (hR : ∀ j, (mapOf MS.empty ops j).isSome → ∃ r, r < R ∧ nextId m s p masked r = j)
+    (hf : R ≤ fuel)
+    (hmini : ∀ st, runAll (nextId m s p masked) St.init ops = some st →
+        minis[k].data = (closeLoop (nextId m s p masked) fuel st).data ∧
+        minis[k].rows = (closeLoop (nextId m s p masked) fuel st).rows)
+    (j : Nat) (q : Payload) (hstored : mapOf MS.empty ops j = some q)
+    (hpos : Routing.minishardKey m p j = minis[k].key) :
+    implFetch m p (fileOf m minis) j = some q := by
+  rw [implFetch_fileOf m p minis wf hslots hfirst hkeys j k hk hpos]
+  obtain ⟨st, hrun, _, hread, _⟩ := closed_reads_back m s p masked ops R fuel hok hR hf
+  obtain ⟨hd, hr⟩ := hmini st hrun
+  have := hread j q hstored
+  rw [hd, hr]
+  simp only [readBack] at this
+  cases hloc : locate (closeLoop (nextId m s p masked) fuel st).rows 0 0 j with
+  | none => rw [hloc] at this; simp at this
+  | some r =>
+    rw [hloc] at this
+    obtain ⟨o, sz⟩ := r
+    simpa using this
+
+/-- non-vacuity, and the F8 layout: minishard 1 alone in a shard with two slots is read back by
+    the package's reader -/
+example : implFetch 1 0 (fileOf 1 [⟨1, [7], [(1, 1)]⟩]) 1 = some [7] := by decide
 
 end NgVerif.Props.C05
